@@ -89,6 +89,7 @@ def expr_case(draw):
         "mapping": draw(st.sampled_from(["default", "perm", "partial", "empty"])),
         "perm_seed": draw(st.integers(0, 1000)),
         "unit": draw(st.sampled_from(gen.FIELD_UNITS)),
+        "scalar_labels": False,
     }
 
 
@@ -122,11 +123,13 @@ def build_env(case):
         dt = case["dtypes"][name]
         arr = gen.make_array(case["seeds"][name], (*n, nv), "int", dt)
         kw = {}
+        if nv == 1 and case.get("scalar_labels"):
+            kw["vdims"] = ["s"]  # user-labelled scalar fields (one label: S and T live in the same space)
         if nv > 1:
             if case.get("vdims"):
                 kw["vdims"] = list(case["vdims"])
             if mapping is not None:
-                kw["vdim_mapping"] = dict(mapping)
+                kw["vdim_mapping"] = gen.shuffled_mapping(mapping, case.get("perm_seed", 0) + 3)
         fields[name] = df.Field(mesh, nvdim=nv, value=arr, dtype=DT[dt], unit=case.get("unit"),
                                 valid=gen.make_mask(case["masks"][name], n), **kw)
         arrays[name] = arr.copy()
@@ -271,6 +274,7 @@ def check_expr(case):
 @st.composite
 def commute_case(draw):
     c = draw(expr_case())
+    c["scalar_labels"] = draw(st.booleans())  # labelled scalars only here (the ufunc path does not support them)
     c["op"] = draw(st.sampled_from(["add", "mul"]))
     c["pair"] = draw(st.sampled_from([["A", "B"], ["S", "A"], ["S", "T"], ["A", "S"]]))
     if c["k"] == 1:
@@ -389,7 +393,8 @@ def check_special(case):
 @st.composite
 def reject_case(draw):
     c = draw(expr_case())
-    c["bad"] = draw(st.sampled_from(["shifted-mesh", "other-n", "nvdim", "type-str", "type-none", "type-dict"]))
+    c["bad"] = draw(st.sampled_from(["shifted-mesh", "other-n", "other-n-broadcastable", "other-n-broadcastable", "nvdim",
+                                     "type-str", "type-none", "type-dict"]))
     c["op"] = draw(st.sampled_from(["add", "sub", "mul", "div", "dot", "cross", "lshift"]))
     c["k2"] = draw(st.integers(2, 4))
     c["axis"] = draw(st.integers(0, len(c["g"]["n"]) - 1))
@@ -420,6 +425,13 @@ def check_reject(case):
     elif bad == "other-n":
         n2 = list(lat.n)
         n2[ax] += 1
+        other = df.Field(df.Mesh(p1=[float(x) for x in lat.pmin], p2=[float(x) for x in lat.pmax], n=n2), nvdim=k,
+                         value=1.0 if k == 1 else (1.0,) * k)
+    elif bad == "other-n-broadcastable":
+        # same region, one cell along some axes where the field has several: numpy would broadcast silently
+        n2 = [1 if (i == ax or (case["k2"] + i) % 2) else m for i, m in enumerate(lat.n)]
+        if n2 == list(lat.n):
+            raise Reject()
         other = df.Field(df.Mesh(p1=[float(x) for x in lat.pmin], p2=[float(x) for x in lat.pmax], n=n2), nvdim=k,
                          value=1.0 if k == 1 else (1.0,) * k)
     elif bad == "nvdim":
